@@ -327,6 +327,30 @@ def check_vm_program(model, files, seed):
         nlog = sum(1 for m in a[1] if m[0] == 'log')
         if limit > 0 and nlog > limit:
             raise Violation('under maxStatements=%d the script emitted %d markers (each its own statement)' % (limit, nlog), dd, 'effect-bound')
+    # one options object used for several runs (a host that keeps its configuration): every run has the whole budget to itself, whatever the run before
+    # it did - completed, or was aborted by the budget
+    for limit in ([n + 1, max(1, n // 2)] if terminates else [57]):
+        logs = []
+        opts = {'logFn': _capped_log(logs), 'maxStatements': limit, 'fetchFn': lambda req: files_text.get(req['url'])}
+        seen = []
+        for _ in range(3):
+            del logs[:]
+            opts['globals'] = copy.deepcopy(g0)
+            try:
+                res = ('ok', impl.bs.execute_script(model, opts))
+            except impl.bs.RuntimeError as e:
+                res = ('runtime-error', str(e))
+            except RecursionError:
+                res = ('recursion', None)
+            except Exception as e:  # pylint: disable=broad-except
+                res = ('host-exception', '%s: %s' % (type(e).__name__, e))
+            seen.append((res[0], res[1] if res[0] != 'ok' else None, list(logs), opts.get('statementCount') if res[0] == 'ok' else None))
+        if any(x[0] == 'recursion' for x in seen):
+            continue
+        if seen[1] != seen[0] or seen[2] != seen[0]:
+            k = 1 if seen[1] != seen[0] else 2
+            raise Violation('with one options object (maxStatements=%d) used for three runs, run %d ends with %r after %d markers, run 1 with %r after %d markers' % (
+                limit, k + 1, seen[k][:2], len(seen[k][2]), seen[0][:2], len(seen[0][2])), dict(d, limit=limit, reuse=True), 'budget-carried-over')
     return n, terminates
 
 
